@@ -240,6 +240,7 @@ func (o *oracleSet) gal() string {
 type walkCall struct {
 	Entry    string            // struct | var | map | url
 	Tag      string            // struct: target tag ("" = default "valid")
+	EmptyTag bool              // struct: the tag name "" passed explicitly (no field has rules under it)
 	Typed    []typedRule       // struct: SetRule(rule, obj)
 	Unscoped map[string]string // struct: SetRule(rule); nil = none
 	HasUnsc  bool
@@ -293,7 +294,7 @@ func typeID(t reflect.Type) string {
 
 func (w *walkCall) galCfg() string {
 	tag := w.Tag
-	if tag == "" {
+	if tag == "" && !w.EmptyTag {
 		tag = "valid"
 	}
 	var typed []string
@@ -320,12 +321,65 @@ func (w *walkCall) run() (err error, panicked bool, ptext string) {
 			ptext = fmt.Sprint(p)
 		}
 	}()
+	// the documented convenience entry points are thin wrappers over the builders; a call goes through a wrapper
+	// whenever one fits its configuration (chosen by the configuration alone, so that a repeated call takes the same road)
+	fnMap := func() valid.Name2FnMap {
+		m := valid.Name2FnMap{}
+		for name, tag := range w.Local {
+			m[name] = markFn(tag)
+		}
+		return m
+	}
 	switch w.Entry {
 	case "struct":
+		switch {
+		case w.EmptyTag && !w.HasUnsc && len(w.Typed) == 0 && len(w.Local) == 0:
+			err = valid.ValidateStruct(w.Src, "")
+			return
+		case len(w.Typed) == 0 && len(w.Local) == 0 && !w.HasUnsc && w.Tag == "":
+			err = valid.Struct(w.Src)
+			return
+		case len(w.Typed) == 0 && len(w.Local) == 0 && !w.HasUnsc:
+			err = valid.ValidateStruct(w.Src, w.Tag)
+			return
+		case len(w.Typed) == 0 && len(w.Local) == 0 && w.HasUnsc && w.Tag == "" && len(w.Unscoped)%2 == 0:
+			err = valid.Struct(w.Src, valid.RM(w.Unscoped))
+			return
+		case len(w.Typed) == 0 && len(w.Local) == 0 && w.HasUnsc && w.Tag != "" && len(w.Unscoped)%2 == 0:
+			err = valid.StructForFn(w.Src, valid.RM(w.Unscoped), w.Tag)
+			return
+		case len(w.Typed) == 0 && len(w.Local) == 0 && w.HasUnsc && w.Tag != "":
+			err = valid.ValidStructForRule(valid.RM(w.Unscoped), w.Src, w.Tag)
+			return
+		case len(w.Typed) == 0 && len(w.Local) > 0 && w.HasUnsc && w.Tag == "":
+			err = valid.StructForFns(w.Src, valid.RM(w.Unscoped), fnMap())
+			return
+		case len(w.Typed) > 0 && len(w.Local) == 0 && !w.HasUnsc && w.Tag == "":
+			rules := map[interface{}]valid.RM{}
+			dup := false
+			for _, t := range w.Typed {
+				if !reflect.TypeOf(t.Obj).Comparable() { // a struct value holding slices cannot be a map key
+					dup = true
+					break
+				}
+				if _, ok := rules[t.Obj]; ok {
+					dup = true
+					break
+				}
+				rules[t.Obj] = valid.RM(t.Rule)
+			}
+			if !dup {
+				err = valid.NestedStructForRule(w.Src, rules)
+				return
+			}
+		}
 		var vs *valid.VStruct
-		if w.Tag == "" {
+		switch {
+		case w.EmptyTag:
+			vs = valid.NewVStruct("")
+		case w.Tag == "":
 			vs = valid.NewVStruct()
-		} else {
+		default:
 			vs = valid.NewVStruct(w.Tag)
 		}
 		if w.HasUnsc {
@@ -339,18 +393,34 @@ func (w *walkCall) run() (err error, panicked bool, ptext string) {
 		}
 		err = vs.Valid(w.Src)
 	case "var":
+		if len(w.Local) == 0 {
+			err = valid.Var(w.Src, w.VarRules...)
+			return
+		}
 		vv := valid.NewVVar().SetRules(w.VarRules...)
 		for name, tag := range w.Local {
 			vv.SetValidFn(name, markFn(tag))
 		}
 		err = vv.Valid(w.Src)
 	case "map":
+		switch {
+		case len(w.Local) == 0:
+			err = valid.Map(w.Src, valid.RM(w.Rules))
+			return
+		case len(w.Rules)%2 == 0:
+			err = valid.MapFn(w.Src, valid.RM(w.Rules), fnMap())
+			return
+		}
 		vm := valid.NewVMap().SetRule(valid.RM(w.Rules))
 		for name, tag := range w.Local {
 			vm.SetValidFn(name, markFn(tag))
 		}
 		err = vm.Valid(w.Src)
 	case "url":
+		if len(w.Local) == 0 {
+			err = valid.Url(w.Src, valid.RM(w.Rules))
+			return
+		}
 		vu := valid.NewVUrl().SetRule(valid.RM(w.Rules))
 		for name, tag := range w.Local {
 			vu.SetValidFn(name, markFn(tag))
